@@ -548,7 +548,7 @@ class ApiRun:
             return
         calls, meta = [], {}
         r = env.rng("C05-vals", self.rindex)
-        quick = ctx.quick()
+        quick = ctx.quick() and not getattr(self, "deep", False)
         for k, (fp, s, m, rq, cross) in enumerate(table):
             exp = exps[k]
             if m.client_streaming or exp is None:
@@ -612,6 +612,9 @@ class ApiRun:
         finally:
             gen.rm(root)
         self.judge(table, exps, out, meta, extracted)
+
+    def top_field(self, rq, name):
+        return next(f for f in self.idx.msgs[rq][0].field if f.name == name)
 
     def impl_keys(self, k):
         fp, s, m, rq, cross = method_table(self.idx)[k]
@@ -685,6 +688,12 @@ class ApiRun:
                 # two members of one oneof passed together: protobuf keeps the last one; the valuation model has no oneofs
                 # (ASSUMES); the direct oracle below still judges the call
                 ctx.features["same-oneof-pair (oracle only)"] += 1
+            elif variant == "Async" and cross and mode != "request" and any(
+                    params[i] in extra and (self.top_field(rq, attr[params[i]]).type, self.top_field(rq, attr[params[i]]).label)
+                    != (exp[i][2].type, exp[i][2].label) for i in sub_):
+                # the asyncio constructor hits a top-level field of another type than the flattened one: inside the reported
+                # defect region; how protobuf converts or rejects the value there is not part of the model
+                ctx.features["async-ctor-defect-region-unmodelled-outcome"] += 1
             elif obs_term in ("ORaiseType",) and variant == "Async" and cross and extra:
                 # the asyncio constructor hit a top-level field of another type: inside the reported defect region, types of
                 # fields that are not flattened are not part of the model
@@ -814,7 +823,7 @@ class ApiRun:
 
 
 # ---------------------------------------------------------------------------------------------- run
-def run_apis(ctx, jobs):
+def run_apis(ctx, jobs, deep=False):
     """jobs: [(tag, req, rindex)]"""
     facts = []
     CH = 4
@@ -824,6 +833,7 @@ def run_apis(ctx, jobs):
     results = gen.pmap(lambda j: gen.run_generator(j[1]), jobs)
     runs = [ApiRun(ctx, tag, req, ri, f, g) for (tag, req, ri), f, g in zip(jobs, facts, results)]
     for a in runs:
+        a.deep = deep
         a.model_defs()
         a.check_fields_mapping()
 
@@ -916,8 +926,8 @@ def search(ctx, broken):
         except apigen.Invalid:
             pass
         i += 1
-    ctx.tier = "thorough"
-    run_apis(ctx, jobs)
+    ctx.notes["search"] = f"{len(jobs)} further APIs with the thorough subset enumeration"
+    run_apis(ctx, jobs, deep=True)
     unknown_first(ctx)
 
 
